@@ -300,6 +300,13 @@ class Interp(object):
       if isinstance(shp, tuple) and shp and shp[0] == 'shape':
         return T(shp[1].last)
       return UNKNOWN
+    if ext in ('tf.math.divide_no_nan', 'tf.math.divide', 'tf.divide',
+               'tf.multiply', 'tf.add', 'tf.subtract', 'tf.maximum',
+               'tf.minimum'):
+      l, r = self.val(args[0]), self.val(args[1])
+      if isinstance(l, T) or isinstance(r, T):
+        return self.broadcast(l, r, c)
+      return UNKNOWN
     if ext in ('tf.nn.softmax', 'tf.sigmoid', 'tf.math.sigmoid', 'tf.exp',
                'tf.nn.relu6', 'tf.nn.relu', 'tf.abs', 'tf.identity',
                'tf.clip_by_value', 'tf.math.log', 'tf.tanh'):
